@@ -56,7 +56,8 @@ static int oracle(uint64_t seed, int n) {
 static int determinism(uint64_t seed, int per_driver) {
   int bad = 0, total = 0;
   for (Driver *d : all_drivers()) {
-    if (strcmp(d->variants(0), "plain") != 0 && strcmp(sim::variant(), "plain") == 0 && false) continue;
+    // in a non-plain build only the drivers that use that build are exercised
+    if (strcmp(sim::variant(), "plain") != 0 && !strstr(d->variants(0), sim::variant())) continue;
     for (int i = 0; i < per_driver; i++) {
       uint64_t cs = case_seed(seed ^ 0xD37, i);
       Case c = d->gen(cs, 0); c.seed = cs;
